@@ -898,6 +898,11 @@ func (p *pendingReadIndex) add(sys pb.SystemCtx, reqs []*RequestState) {
 	p.mu.Lock()
 	defer p.mu.Unlock()
 	if p.stopped {
+		// these requests were taken out of the queue before close() drained it,
+		// nobody else is going to complete them
+		for _, req := range reqs {
+			req.terminated()
+		}
 		return
 	}
 	if _, ok := p.batches[sys]; ok {
